@@ -812,15 +812,32 @@ impl Mp4TrackWriter {
         }
     }
 
-    fn update_durations(&mut self, dur: u32, movie_timescale: u32) {
-        self.trak.mdia.mdhd.duration += dur as u64;
+    /// Media duration and track duration (in movie timescale units) after a
+    /// sample of duration `dur`, or an error if they do not fit 64 bits.
+    fn next_durations(&self, dur: u32, movie_timescale: u32) -> Result<(u64, u64)> {
+        let media_duration = self
+            .trak
+            .mdia
+            .mdhd
+            .duration
+            .checked_add(dur as u64)
+            .ok_or(Error::InvalidData("media duration overflow"))?;
+        // Convert the total media duration; summing per-sample conversions
+        // accumulates the rounding error of every sample.
+        let track_duration = u64::try_from(
+            media_duration as u128 * movie_timescale as u128
+                / self.trak.mdia.mdhd.timescale as u128,
+        )
+        .map_err(|_| Error::InvalidData("track duration overflow"))?;
+        Ok((media_duration, track_duration))
+    }
+
+    fn update_durations(&mut self, media_duration: u64, track_duration: u64) {
+        self.trak.mdia.mdhd.duration = media_duration;
         if self.trak.mdia.mdhd.duration > (u32::MAX as u64) {
             self.trak.mdia.mdhd.version = 1
         }
-        // Convert the total media duration; summing per-sample conversions
-        // accumulates the rounding error of every sample.
-        self.trak.tkhd.duration = (self.trak.mdia.mdhd.duration as u128 * movie_timescale as u128
-            / self.trak.mdia.mdhd.timescale as u128) as u64;
+        self.trak.tkhd.duration = track_duration;
         if self.trak.tkhd.duration > (u32::MAX as u64) {
             self.trak.tkhd.version = 1
         }
@@ -836,6 +853,9 @@ impl Mp4TrackWriter {
             // sample sizes are 32-bit in stsz
             return Err(Error::InvalidData("sample too large"));
         }
+        // checked before anything is modified: a rejected sample leaves no trace
+        let (media_duration, track_duration) =
+            self.next_durations(sample.duration, movie_timescale)?;
         self.chunk_buffer.extend_from_slice(&sample.bytes);
         self.chunk_samples += 1;
         self.chunk_duration = self.chunk_duration.saturating_add(sample.duration);
@@ -846,7 +866,7 @@ impl Mp4TrackWriter {
         if self.is_chunk_full() {
             self.write_chunk(writer)?;
         }
-        self.update_durations(sample.duration, movie_timescale);
+        self.update_durations(media_duration, track_duration);
 
         self.sample_id += 1;
 
